@@ -1,10 +1,34 @@
 # fam_cpccodec.py — the serialized image of cpc_sketch: Coq model coq/CpcImageDefs.v (image record, enc_image, image_of_sketch through the
-# compressor model, dec_image_bytes / dec_image_stream mirroring both readers, the shared tail) run by coq/CpcImageRun.v, theorems in
-# Properties_C09_cpc.v / Properties_C10_cpc.v / Properties_C11_cpc.v (proofs: CpcImageProofs.v), old reader behaviour in Regression_cpccodec.v,
-# against cpc_sketch::serialize (bytes, header, stream) / deserialize(bytes) / deserialize(istream) through harness/drv_cpccodec.cpp
-# (= drv_cpc.cpp + opcodes 40..43).
-# The model describes the readers as repaired by fixes/11_cpc_reader_count_bounds.patch, 11_cpc_uncompress_overread.patch,
-# 11_cpc_hybrid_row_range.patch, 11_cpc_sliding_col_range.patch (see MUTATIONS / DEFECTS at the end of this file).
+# compressor model of C05, dec_image_bytes / dec_image_stream mirroring both readers, the shared tail) run by coq/CpcImageRun.v; theorems in
+# Properties_C09_cpc.v / Properties_C10_cpc.v / Properties_C11_cpc.v (proofs: CpcImageProofs.v, CpcImageProofs2.v), old reader behaviour in
+# Regression_cpccodec.v; against cpc_sketch::serialize (bytes, header, stream) / deserialize(bytes) / deserialize(istream) through
+# harness/drv_cpccodec.cpp (= drv_cpc.cpp + opcodes 40..43).
+# The model describes the readers as REPAIRED by fixes/11_cpc_reader_count_bounds.patch, 11_cpc_uncompress_overread.patch,
+# 11_cpc_hybrid_row_range.patch, 11_cpc_sliding_col_range.patch. Until they are applied `./check C11` on /repo reports VIOLATION for this
+# family (sanitizer crashes: cases cpccor_*, cpcreg_*); C09 / C10 are green on /repo as it is.
+#
+# Mutations confirmed caught (scratch worktree with the four patches applied, VERIF_REPO; C09 / C10 / C11):
+#   M1 lg_k and first_interesting_column written and read in swapped order, consistently in both writers and both readers:
+#      cpc_documented_layout (C09, C10, C11) — a pure round trip would not see it
+#   M2 flag bits HAS_HIP and HAS_TABLE exchanged in the enum (writer and readers consistent): cpc_documented_layout, flags byte 10 != 6 (all three)
+#   M3 deserialize(bytes) loses the check_memory_size before num_coupons: C11 heap-buffer-overflow in copy_from_mem on an 8-byte image with a flag set
+#   M4 check_memory_size `>` -> `>=`: cpc_roundtrip, the bytes reader refuses every exact-size image (all three)
+#   M5 deserialize(bytes) loses the final "deserialized size mismatch" test: model/implementation difference on images with trailing bytes (all three)
+#   M6 get_preamble_ints adds 3 instead of 4 for HIP (writer and reader share it): heap-buffer-overflow in serialize(header) (all three)
+#   M7 both readers lose the seed hash comparison: cpc_wrong_seed_accepted (C09, C10), model/implementation difference (C11)
+#   M8 deserialize(istream) loses its last is.good() test: cpc_prefix_accepted (C11, stream path, prefix cut inside the table words)
+#   M9 check_compressed_sizes `window words > safe length` -> `>=`: cpc_roundtrip on the worst-case window cases (class worstwin: every window
+#      byte has a 12-bit code, the compressed window fills the compressor's buffer to the last word)
+# Harmless rewrites confirmed NOT reported (0 violations in C09, C10, C11): H1 window / table words written word by word instead of in bulk;
+#   H2 ensure_minimum_memory(size, 8) replaced by an equivalent test + the three flag lines reordered; H3 compress_surprising_values allocates
+#   one spare word.
+# Defects found (each confirmed on /repo with a concrete image, see fixes/11_cpc_*.msg and coq/Regression_cpccodec.v):
+#   resize before the size check / no bound in the stream reader (allocation-size-too-big), over-read of the compressed words in
+#   maybe_fill_bitbuf, window[row] written for row >= k in uncompress_hybrid_flavor, permutation[col] read for col >= 56 in
+#   uncompress_sliding_flavor.
+# Not claimed (accepted, memory-safe garbage): an image whose num_coupons disagrees with the decoded content (validate() would be false),
+#   first_interesting_column > 63, a flags byte without IS_COMPRESSED or with unused bits, an empty image with table / window flags and
+#   zero coupons; lg_k = 26 with more than 2^32 - 2^26 table entries (uint32 wrap of k + num_pairs) is outside every run.
 import os, sys
 import C05
 
@@ -53,7 +77,7 @@ def py_enc(lgk, nc, fic, merged, sh, tne, tab, win, kxp, hip):
 
 # ---------------------------------------------------------------------------------------------------------------------------------------
 # states of every class
-CLASSES = ['empty', 'sparse', 'hybrid', 'pinned_t', 'pinned_nt', 'sliding_t', 'sliding_nt', 'merged', 'worstwin']
+CLASSES = ['empty', 'sparse', 'hybrid', 'pinned_t', 'pinned_nt', 'sliding_t', 'sliding_nt', 'merged', 'worstwin', 'latezone']
 
 def build_state(rng, b, lgk, cls, seed):
     """returns (register, merged?) of a sketch of the wanted class"""
@@ -73,6 +97,14 @@ def build_state(rng, b, lgk, cls, seed):
     if cls == 'worstwin':
         r, sim = b.new_sketch(lgk, seed)
         cells = worst_window(rng, lgk) or [(row << 6) | col for row in range(k) for col in range(8)][:k]
+        rng.shuffle(cells)
+        for rc in cells: b.ops.append([3, r, rc])
+        return r
+    if cls == 'latezone':
+        # every coupon far beyond the window: the early zone is all surprising zeros, so the table holds MORE entries than there are
+        # coupons (lg_k 4: 200 coupons, offset 10, 360 entries) — a reader that bounded table_num_entries by num_coupons would refuse it
+        r, sim = b.new_sketch(lgk, seed)
+        cells = [(row << 6) | col for col in range(40, 64) for row in range(k)][:rng.randint(12 * k, 13 * k)]
         rng.shuffle(cells)
         for rc in cells: b.ops.append([3, r, rc])
         return r
@@ -158,6 +190,7 @@ def gen_c09(rng, tier):
             for rep in range(1 if tier == 'quick' else 3):
                 if lgk > 9 and cls in ('sliding_t', 'sliding_nt', 'merged') and rep: continue
                 if cls == 'worstwin' and lgk > 6: continue
+                if cls == 'latezone' and lgk > 5: continue
                 seed = rng.choice([DEFAULT_SEED, DEFAULT_SEED, 0, 77, 2**64 - 1])
                 b = C05.Builder(rng)
                 r = build_state(rng, b, lgk, cls, seed)
@@ -219,6 +252,7 @@ def gen_c11(rng, tier):
         for cls in CLASSES:
             if lgk > 8 and cls in ('merged',): continue
             if cls == 'worstwin' and lgk > 5: continue
+            if cls == 'latezone' and lgk > 4: continue
             seed = rng.choice([DEFAULT_SEED, DEFAULT_SEED, 123])
             b = C05.Builder(rng)
             r = build_state(rng, b, lgk, cls, seed)
@@ -363,7 +397,8 @@ FAMILIES_C09 = [fam(gen_c09)]
 FAMILIES_C10 = [fam(gen_c10)]
 FAMILIES_C11 = [fam(gen_c11)]
 
-RULE_C09 = ('cpc_sketch of every class (empty, sparse, hybrid, pinned with / without surprising values, sliding with / without, results of cpc_union = no HIP registers), lg_k 4..8 '
+RULE_C09 = ('cpc_sketch of every class (empty, sparse, hybrid, pinned with / without surprising values, sliding with / without, results of cpc_union = no HIP registers, '
+            'worst-case windows that fill the compressor buffer to the last word), lg_k 4..8 '
             '(thorough 4..11), several seeds: image bytes compared byte for byte with the Coq encoder (compressor model included); stream form = byte form = header form minus the header = '
             'advertised size; the image, and the image followed by trailing bytes, read back through both readers and compared with the Coq decoders and with the dump of the original '
             '(window, sorted table, offset, fic, kxp / hip bit patterns); wrong seed refused; deserialize-then-continue with identical updates gives identical images; non-trivial = every case')
@@ -372,7 +407,6 @@ RULE_C10 = RULE_C09 + ('; every image is re-assembled in Python from the documen
 RULE_C11 = ('every strict prefix of images of every class on both reader paths (lg_k 4..5 quick / 4..7 thorough: every length; larger: the first 48 lengths and the last 58) must be rejected '
             'and the model must agree; every byte of the preamble (up to 40 bytes) and of the first data words replaced by 0x00/0xFF/0x7F/0x80/+1/-1; counts lowered with the data '
             'shortened, two count fields changed together, random garbage in the compressed words; hand-written 8..32-byte images with every combination of the flag bits, preamble_ints 2..4 '
-            'and lg_k out of range: accept/reject and the decoded content = the Coq decoders, under ASan/UBSan with a 512 MB allocation cap; non-trivial = every case')
+            'and lg_k out of range; the witness images of coq/Regression_cpccodec.v (huge counts, entry count beyond the words, HYBRID row >= k, SLIDING column >= 56): accept/reject and the decoded content = '
+            'the Coq decoders, under ASan/UBSan with a 512 MB allocation cap; non-trivial = every case')
 
-MUTATIONS = '''
-'''
